@@ -349,8 +349,8 @@ def showXOut : XOut → String
   | .stan r => showRes (fun s => "st=" ++ showStan s) r
   | .stans r => showRes (fun l => "sts=[" ++ ",".intercalate (l.map showStan) ++ "]") r
   | .search r => showRes (fun o => match o with
-      | .none => "srch=N" | .nodeText => "srch=node"
-      | .docstring none => "srch=N" | .docstring (some t) => "srch=doc:" ++ Proto.encodeStr t) r
+      | .none => "srch=N" | .nodeText => "srch=text"
+      | .docstring none => "srch=N" | .docstring (some _) => "srch=text") r
 
 def showPType : Option Body → String
   | none => "N"
